@@ -19,7 +19,7 @@ REPO = os.environ.get("SPOX_REPO", "/work/repo-c10")
 assert REPO != "/repo", "never mutate /repo: point SPOX_REPO at a scratch worktree"
 R = REPO + "/src/spox/"
 OBLIGATION_ONLY = {"S1_new_attr_class", "S2_new_array_function", "S3_new_storing_init", "I7_lazy_tuple", "F4_deref_keeps_ref_name"}  # expected: exit 1, no-failing-input-found
-EQUIVALENT = {"B21b_no_flatten", "M12_ravel_K", "M15_future_init_asarray", "M16_lazy_onnx_cache", "D2_raw_correct_large"}
+EQUIVALENT = {"B21b_no_flatten", "M12_ravel_K", "M15_future_init_asarray", "M16_lazy_onnx_cache", "D2_raw_correct_large", "K0_arguments_visited_last"}
 MUTS = {
  # Appendix B row 20
  "B20a_list_not_frozen": ("_attributes.py", "value=value if isinstance(value, _Ref) else tuple(value), name=name", "value=value, name=name"),
@@ -82,6 +82,13 @@ MUTS = {
  # round 8: the caller's list kept by reference for variadic inputs (the class C01 closed; C10's last clause owns it)
  "V1_variadic_list_by_reference": ("_fields.py", "                value = tuple(value)\n                setattr(self, field.name, value)", "                value = value if isinstance(value, list) else tuple(value)\n                setattr(self, field.name, value)"),
  "V2_variadic_no_tuple_at_all": ("_fields.py", "                value = tuple(value)\n                setattr(self, field.name, value)", "                value = value if hasattr(value, '__len__') else tuple(value)"),
+ # round 10: the initializer table (dict by Var -> dict by name -> from_array(arr, name))
+ "K1_equal_initializers_shared": ("_graph.py", "        initializer_tensors = [\n            from_array(arr, name)\n            for name, arr in self._get_initializers_by_name().items()\n        ]\n",
+   "        _seen: list = []\n        initializer_tensors = []\n        for name, arr in self._get_initializers_by_name().items():\n            if any(a.dtype == arr.dtype and a.shape == arr.shape and a.tobytes() == arr.tobytes() for a in _seen):\n                continue  # 'share' equal constants\n            _seen.append(arr)\n            initializer_tensors.append(from_array(arr, name))\n"),
+ "K2_names_sorted_values_not": ("_graph.py", "            for name, arr in self._get_initializers_by_name().items()\n        ]\n",
+   "            for name, arr in zip(sorted(self._get_initializers_by_name()), self._get_initializers_by_name().values())\n        ]\n"),
+ "K0_arguments_visited_last": [("_build.py", "        for arg in self.arguments_of[graph]:\n            node = arg._op\n            node.update_metadata(opset_req, initializers, functions)\n", "        for arg in self.arguments_of[graph]:\n            node = arg._op\n"),
+   ("_build.py", "        opset_req |= subgraph_opset_req\n", "        for arg in self.arguments_of[graph]:\n            arg._op.update_metadata(opset_req, initializers, functions)\n        opset_req |= subgraph_opset_req\n")],
  # new capture sites without a row: generated_capture_complete / generated_classes_complete must break
  "S1_new_attr_class": ("APPEND", "_attributes.py", "\n\nclass AttrInt64Matrix(Attr[list]):\n    _attribute_proto_type = AttributeProto.INTS\n\n    def _to_onnx_deref(self) -> AttributeProto:\n        return make_attribute(self._name, [x for r in self.value for x in r], attr_type=AttributeProto.INTS)\n"),
  "S2_new_array_function": ("APPEND", "_graph.py", "\n\ndef initializers(arrs: List[np.ndarray]) -> Tuple[Var, ...]:\n    return tuple(initializer(a) for a in arrs)\n"),
